@@ -3,6 +3,7 @@ package main
 // Calls: builtins, conversions, contracts at call sites, inlining.
 
 import (
+	"regexp"
 	"fmt"
 	"go/ast"
 	"go/token"
@@ -152,6 +153,8 @@ func (x *Exec) evalReceiver(f *ast.SelectorExpr, sel *types.Selection, fn *types
 	}
 	return x.eval(f.X, st)
 }
+
+var resultIdentRe = regexp.MustCompile(`\bresult\b`)
 
 func exprString(e ast.Expr) string {
 	switch e := e.(type) {
@@ -532,9 +535,20 @@ func (x *Exec) applyContract(c *Contract, fn *types.Func, recv *Value, args []*V
 	// results declared fresh are allocated from the caller's frontier, so that their
 	// freshness is syntactic (needed for loop frames)
 	freshRes := false
+	var freshGuard ast.Expr // non-nil: result is fresh only under this condition (G ==> ... fresh(result) ...)
 	for _, e := range c.Ensures {
 		if strings.Contains(e.Src, "fresh(result)") {
 			freshRes = true
+			if ce, ok := parseSpec(e).(*ast.CallExpr); ok {
+				if id, ok := ce.Fun.(*ast.Ident); ok && id.Name == "implies__" && len(ce.Args) == 2 && !resultIdentRe.MatchString(exprString(ce.Args[0])) && strings.Contains(exprString(ce.Args[1]), "fresh(result)") {
+					if freshGuard == nil {
+						freshGuard = ce.Args[0]
+					}
+					continue
+				}
+			}
+			freshGuard = nil
+			break // an unconditional occurrence: the result is always a fresh object
 		}
 	}
 	var freshRef *Term
@@ -605,23 +619,38 @@ func (x *Exec) applyContract(c *Contract, fn *types.Func, recv *Value, args []*V
 	for _, e := range c.Ensures {
 		findAlias(parseSpec(e))
 	}
-	// results
+	// results (the first one last when its freshness is conditional on the others)
 	var results []*Value
+	order := []int{}
 	for i := 0; i < sig.Results().Len(); i++ {
+		order = append(order, i)
+	}
+	if freshGuard != nil && freshRef != nil && len(order) > 1 {
+		order = append(order[1:], 0)
+	}
+	results = make([]*Value, sig.Results().Len())
+	for _, i := range order {
 		rt := sig.Results().At(i).Type()
 		var v *Value
 		if i == 0 && aliasRes != nil {
 			v = x.coerce(aliasRes, rt)
 		} else if i == 0 && freshRef != nil {
+			ref := freshRef
+			if freshGuard != nil {
+				// fresh only when the guard holds; otherwise an arbitrary (possibly nil) value
+				g := x.evalSpec(freshGuard, sc, st)
+				other := x.symbolic(st, rt, "ret."+fn.Name())
+				ref = x.vc.define("res", Ite(g.Tm, freshRef, other.term()))
+			}
 			if isPointer(rt) {
-				v = &Value{T: rt, P: &Pointer{Base: freshRef}}
+				v = &Value{T: rt, P: &Pointer{Base: ref}}
 			} else {
-				v = &Value{T: rt, Tm: freshRef}
+				v = &Value{T: rt, Tm: ref}
 			}
 		} else {
 			v = x.symbolic(st, rt, "ret."+fn.Name())
 		}
-		results = append(results, v)
+		results[i] = v
 		name := "result"
 		if i > 0 {
 			name = fmt.Sprintf("result%d", i)
